@@ -988,7 +988,56 @@ def _re_compile(B, I, pat, flags=0):
 
 
 def _defaultdict(B, I, factory=None, *a, **k):
-    raise Unknown("collections.defaultdict")
+    d = B.b_dict(I, *a, **k)
+    d.factory = factory
+    return d
+
+
+def _suppress(B, I, *excs):
+    cm = ExtV("contextlib.suppress")
+    cm.methods["__strict__"] = True
+    cm.methods["__enter__"] = lambda I_, s: None
+    cm.methods["__exit__"] = lambda I_, s, t, e, tb: isinstance(t, ClassV) and any(isinstance(x, ClassV) and t.issub(x) for x in excs)
+    return cm
+
+
+def _lru_cache(B, I, *a, **k):
+    """functools.cache / lru_cache: real memoisation on the abstract arguments (so stale answers are visible to the checks)."""
+    def wrap(f):
+        memo = []
+
+        def cached(I_, *args, **kw):
+            key = Seq(list(args) + [Seq([kk, vv], "tuple") for kk, vv in sorted(kw.items())], "tuple")
+            B.check_hashable(key)
+            for kk, vv in memo:
+                if I_.eq(kk, key):
+                    return vv
+            v = I_.call(f, list(args), kw)
+            memo.append((key, v))
+            return v
+        return Builtin("lru_cache(" + getattr(f, "name", "?") + ")", cached)
+    if len(a) == 1 and not k and isinstance(a[0], (Func, Bound, Builtin)):
+        return wrap(a[0])
+    return Builtin("lru_cache-decorator", lambda I_, f: wrap(f))
+
+
+def _partial(B, I, f, *a, **k):
+    return Builtin("partial", lambda I_, *b, **k2: I_.call(f, list(a) + list(b), {**k, **k2}))
+
+
+def _islice(B, I, it, *a):
+    items = I.iterate(it)
+    if not all(isinstance(x, int) or x is None for x in a):
+        raise Unknown("islice bounds")
+    return IterV(items[slice(*a)])
+
+
+def _attrgetter(B, I, name):
+    return Builtin("attrgetter", lambda I_, o: I_.getattr(o, name))
+
+
+def _itemgetter(B, I, k):
+    return Builtin("itemgetter", lambda I_, o: I_.getitem(o, k))
 
 
 def _ordered_dict(B, I, *a, **k):
@@ -1007,5 +1056,12 @@ _EXT_FUNCS = {
     "itertools.chain": _itertools_chain,
     "re.compile": _re_compile,
     "collections.defaultdict": _defaultdict,
+    "contextlib.suppress": _suppress,
+    "functools.lru_cache": _lru_cache,
+    "functools.cache": _lru_cache,
+    "functools.partial": _partial,
+    "itertools.islice": _islice,
+    "operator.attrgetter": _attrgetter,
+    "operator.itemgetter": _itemgetter,
     "collections.OrderedDict": _ordered_dict,
 }
